@@ -33,6 +33,7 @@ func init() {
 		"vBytes":    vBytesIntrinsic,
 		"vDone":     func(fr *frame, args []value) value { panic(pathAbort{abDone, ""}) },
 		"vMapOrder": vMapOrderIntrinsic,
+		"vFormatOpaque": func(fr *frame, args []value) value { fr.i.formatOpaque = args[0].(bool); return nil },
 		"vEffects":  vEffectsIntrinsic,
 		"vConcreteString": vConcreteStringIntrinsic,
 		"vIsConcrete": func(fr *frame, args []value) value { return !hasSym(args[0].(iface).v) },
